@@ -439,14 +439,21 @@ func (pe *PolicyEngine) determineAllowedConnsPerDirection(policy *k8s.NetworkPol
 // updatePeerXgressClusterWideExposure updates the cluster-wide exposure of the pod which is selected by input policy.
 // used only when exposure-analysis is active
 func updatePeerXgressClusterWideExposure(policy *k8s.NetworkPolicy, src, dst k8s.Peer, isIngress bool) {
+	selectedPod := src.GetPeerPod() // policy selecting src
 	if isIngress {
-		// policy selecting dst (dst pod is real)
+		selectedPod = dst.GetPeerPod() // policy selecting dst
+	}
+	if selectedPod.FakePod {
+		// exposure data is kept for real pods only; a fake pod (e.g. the ingress-controller pod, when a policy lives in
+		// its namespace) has none
+		return
+	}
+	if isIngress {
 		// update its ingress entire cluster connection relying on policy data
-		dst.GetPeerPod().UpdatePodXgressExposureToEntireClusterData(policy.IngressPolicyExposure.ClusterWideExposure, isIngress)
+		selectedPod.UpdatePodXgressExposureToEntireClusterData(policy.IngressPolicyExposure.ClusterWideExposure, isIngress)
 	} else {
-		// policy selecting src
 		// update its egress entire cluster connection relying on policy data
-		src.GetPeerPod().UpdatePodXgressExposureToEntireClusterData(policy.EgressPolicyExposure.ClusterWideExposure, isIngress)
+		selectedPod.UpdatePodXgressExposureToEntireClusterData(policy.EgressPolicyExposure.ClusterWideExposure, isIngress)
 	}
 }
 
